@@ -244,21 +244,24 @@ PROPS['C04'] = {
 for _u in PROPS['C04']['units']:
     PROPS['C07']['units'].append(_u)
 PROPS['C15'] = {
-    'units': ['doc_kotlin', 'doc_swift', 'doc_scala', 'doc_go', 'doc_ts'],
+    'units': ['doc_kotlin', 'doc_swift', 'doc_scala', 'doc_go', 'doc_ts', 'doc_python'],
     'title': 'documentation text is carried only inside comments of the generated code (line-comment kernel + TypeScript block comments)',
     'technique': 'Verus postconditions on write_comment / write_comments of the four line-comment back ends (Kotlin, Swift, Scala, Go; extracted '
                  'verbatim) over a ghost text sink: the writeln! site through a contract generated from its literal, the marker taken from the literal '
                  'itself; str::split on line breaks as iteration over break-free pieces; plus a postcondition on TypeScript::write_comments (block '
-                 'comment): the three format! literals through generated contracts and per-character lemmas, the proof generic in their pieces',
+                 'comment): the three format! literals through generated contracts and per-character lemmas, the proof generic in their pieces; plus a postcondition '
+                 'on the `#` comment branch of Python::write_comments (flat_map(split).map(format!).collect().join as the nested loops std documents, closure body verbatim)',
     'level_text': 'For every doc string (any characters: line feeds, carriage returns, comment terminators, quote sequences, backslashes), any '
                   'indentation and any number of comments: the text the writer appends is a sequence of whole lines, each of the form indentation + a '
                   'marker starting with `//` + text without a line break + line feed - so every byte of the doc text lies between `//` and the end of its '
                   'line and cannot become code. TypeScript: for every non-empty comment list the appended text is indentation + `/*` + body + `*/` + line feed '
                   'where the body (the literals\' own text, the indentation, the escaped doc strings, the separator between them) contains no `*/` - the '
-                  'comment ends exactly where the writer ends it - GIVEN that the `*/` -> `*\\/` replacement leaves no `*/` in a doc string (assumed).',
+                  'comment ends exactly where the writer ends it - GIVEN that the `*/` -> `*\\/` replacement leaves no `*/` in a doc string (assumed). Python, `#` comments '
+                  '(is_docstring == false): for every non-empty comment list the appended text is a sequence of lines indentation + `#` + text without a line break + line feed.',
     'level_note': 'Kernel: the comment writers of Kotlin, Swift, Scala, Go and TypeScript. For TypeScript the str::replace step is an assumed '
-                  'contract (its omission or a different replacement loses the anchor: undecided, left to the stand-in). Python (docstring, '
-                  '`\"\"\"` escaped; `#` comments per line) is NOT proved: bounded stand-in doc-search only (its lexical argument - backslash parity before a quote run - is outside what the string vocabulary here expresses). '
+                  'contract (its omission or a different replacement loses the anchor: undecided, left to the stand-in). Python `#` comments (is_docstring == false: the '
+                  'doc comment of an algebraic enum) ARE proved: the appended text is a sequence of lines indentation + `#` + text without a line break + line feed. Python docstrings ('
+                  '`\"\"\"` escaped) are NOT proved: bounded stand-in doc-search only (its lexical argument - backslash parity before a quote run - is outside what the string vocabulary here expresses). '
                   'That every doc string of the source reaches a writer and is reproduced completely is syn code (stand-in). Assumed: str::split yields '
                   'pieces without separator characters; "\\t".repeat(n) is indentation; trim_end introduces no line break; std::fmt `{}` semantics.',
     'design_ref': 'DESIGN.md section 10.11',
@@ -267,24 +270,32 @@ PROPS['C15'] = {
 for _u in PROPS['C15']['units']:
     PROPS['C07']['units'].append(_u)
 PROPS['C12'] = {
-    'units': ['fmt_go', 'fmt_swift', 'fmt_python', 'contains'],
+    'units': ['fmt_go', 'fmt_swift', 'fmt_python', 'contains', 'opt_python', 'pyclass'],
     'title': 'every helper name typeshare introduces is defined or imported (bookkeeping kernel)',
     'technique': 'additional Verus postconditions on the type-expression translators of Go, Swift and Python (the same verbatim extraction as C05): '
                  'whenever the translation reaches a built-in type whose spelling uses a helper, the helper has been recorded; plus contracts on '
-                 'RustType::contains_type / SpecialRustType::contains_type / id, on which Scala\'s alias decision rests',
+                 'RustType::contains_type / SpecialRustType::contains_type / id, on which Scala\'s alias decision rests; plus Verus contracts on the Python class '
+                 'writers Python::write_field, add_common_imports (verbatim, unit opt_python) and write_struct, add_type_var, handle_model_config (verbatim, unit pyclass): every pydantic / '
+                 'typing name their text uses has been recorded for the import block',
     'level_text': 'For every type expression, configuration and generic scope: after format_type answers Ok, Go has recorded the import of "time" if '
                   'the expression reaches OffsetDateTime; Swift has raised the CodableVoid flag if it reaches (); Python has recorded typing.List / '
                   'typing.Optional / typing.Dict / datetime.datetime for every sequence / Option / map / OffsetDateTime it reaches - "reaches" meaning '
                   'at any depth and not hidden behind a mapped type - and recorded helpers are never lost again. contains_type(name) is true whenever a '
-                  'built-in type spelled `name` occurs anywhere in the expression (lemma), which is what Scala asks for each unsigned integer name.',
+                  'built-in type spelled `name` occurs anywhere in the expression (lemma), which is what Scala asks for each unsigned integer name. Python classes: '
+                  'after write_struct answers Ok, pydantic.BaseModel is recorded, and for a generic struct typing.Generic, typing.TypeVar and every type parameter '
+                  '(TypeVar block); after write_field answers Ok, pydantic.Field is recorded whenever the member is written with `= Field(..)` (aliased, Option or '
+                  'serde(default)), typing.Optional whenever the writer wraps the type in `Optional[..]`, typing.Annotated / pydantic.BeforeValidator / '
+                  'PlainSerializer whenever the type text has a custom (de)serialiser; handle_model_config records pydantic.ConfigDict whenever it writes the '
+                  '`model_config = ConfigDict(..)` line; none of these functions loses a recorded import or type variable.',
     'level_note': 'Kernel at the level of what is RECORDED. That the recorded imports / the CodableVoid definition / the Scala package object / '
-                  'TypeScript\'s reviver footer are then WRITTEN, that names used on other paths (BaseModel, Field, Literal, TypeVar, json.) are imported, '
+                  'TypeScript\'s reviver footer are then WRITTEN, that names used on other paths (Python enums: Enum, Literal, Union and their TypeVars; Go json.) are imported, '
                   'and Scala::unsigned_integer_used\'s collection of the file\'s types (iterator chains) are not proved: bounded stand-in helper-search. '
                   'Assumed: add_import / add_imports record and only add (entry-API stubs); AtomicBool::store modelled as an update (sequential code).',
     'design_ref': 'DESIGN.md section 10.12',
     'bounded': ['helpersearch', 'cli_extras'],
 }
 PROPS['C07']['units'].append('contains')
+PROPS['C07']['units'].append('pyclass')
 PROPS['C08'] = {
     'units': ['errgate', 'merge'],
     'title': 'a recorded parse error ends the run with an error before anything is written (error-gate kernel)',
@@ -350,7 +361,7 @@ PROPS['C19'] = {
 }
 PROPS['C07']['units'].append('annot')
 PROPS['C10'] = {
-    'units': ['kw', 'doc_kotlin', 'doc_swift', 'doc_scala', 'doc_go', 'doc_ts'],
+    'units': ['kw', 'doc_kotlin', 'doc_swift', 'doc_scala', 'doc_go', 'doc_ts', 'doc_python'],
     'title': 'generated files are lexically well-formed: comments are closed, keyword collisions are escaped (two clause kernels)',
     'technique': 'Verus contracts on the keyword-escaping helpers swift_keyword_aware_rename and python_property_aware_rename (extracted verbatim; '
                  'format! through literal-generated contracts; keyword tables and convert_case as uninterpreted functions) and, for the clause '
